@@ -9,7 +9,8 @@ REQUIRED = ["CifModel.C17_dup_ustrings_balanced", "CifModel.C17_clone_balanced",
             "CifModel.C17_map_set_balanced", "CifModel.C17_cex_map_set_corrupt", "CifModel.C17_map_remove_balanced",
             "CifModel.C17_clone_table_balanced", "CifModel.C17_cex_clone_table_corrupt", "CifModel.C17_map_fault_reached_iff",
             "CifModel.C17_ladder_reentry", "CifModel.C17_deserialize_table_balanced", "CifModel.C17_get_names_norm_balanced",
-            "CifModel.C17_atomic_under_fault", "CifModel.C17_abs_unchanged", "CifModel.C17_close_fault_is_abort"]
+            "CifModel.C17_atomic_under_fault", "CifModel.C17_abs_unchanged", "CifModel.C17_close_fault_is_abort",
+            "CifModel.C17_fault_modelled", "CifModel.C17_fault_path_independent"]
 GEN = ["ErrCodes", "Schema", "Uthash"]
 FAMILIES = ["ladder", "oom", "storefault"]
 TRUSTED_BASE = [
@@ -36,9 +37,18 @@ ASSUMPTIONS = [
     "operations) is observed by exhaustive fault enumeration on fixed representative scenarios, not proved",
 ]
 PARTIAL = [
-    "store functions: C17_atomic_under_fault (every world with the invariant, every modelled operation, every fault position: error code, handle "
-    "tables untouched, every CIF unchanged, the repeated call gives the fault-free result) covers the documented rollback paths; cif_create, "
-    "cif_destroy, cif_pktitr_abort are not covered by stepFault",
+    "store functions: C17_atomic_under_fault — every world with the invariant, every op that works on a CIF, every fault position, and ANY "
+    "state `mid` the statements executed before the failure may have left the database in: error code, handle tables untouched, every CIF "
+    "unchanged (proved from the transaction semantics: the failure handler's ROLLBACK / ROLLBACK_NESTTX / ROLLBACK_TO restores the snapshot taken "
+    "by BEGIN / BEGIN_NESTTX / SAVE — failPath_same), the repeated call gives the fault-free result. The statements before the failure are NOT "
+    "executed by the model: their effect is universally quantified (`mid`); that a function's failure handler is the one of its TxClass "
+    "(Model/StoreFault txClass) is tied to the sources only through the per-function macro uses of C05_paths_link",
+    "C17_atomic_under_fault is trivially true (left disjunct: the op runs without fault) for the ops that `target` does not model — cif_create, "
+    "cif_destroy, cif_pktitr_close / cif_pktitr_abort (C17_close_fault_is_abort states the COMMIT failure of close), the calls that only read "
+    "the handle (get_code, is-block, loop_get_category), container_destroy / loop_destroy while the harness refuses them (iterator on the "
+    "handle), and every op on a dead handle; for every other (op, k within the op's layout) the call fails: C17_fault_modelled",
+    "one-statement functions (container_destroy, loop_destroy, prune, set_category, the queries): SQLite's statement-level atomicity is ASSUMED "
+    "(TxClass.stmt: the store is returned as it was)",
     "ladder theorems (Props/C17.lean, Props/C17Map.lean), every size / shape / key set / fault position. The `*_balanced` theorems are "
     "about the model variant that family `ladder` compares with the CURRENT sources (/repo 3148ec3): dup_ustrings, cif_value_clone "
     "(scalars, text, numbers, nested lists; tables only at the top: C17_clone_table_balanced), cif_value_insert_element_at, "
